@@ -21,12 +21,29 @@ From YP Require Import Base.Str Term.Term Term.Fast Unify.Unify Unify.Fast Engin
 Set Implicit Arguments.
 
 (* ------------------------------------------------------------------ the invariant *)
-Definition goal_in (P : nat -> bool) (gl : goal) : Prop :=
+Definition conj_all (A : Type) (Q : A -> Prop) (l : list A) : Prop := fold_right (fun x acc => Q x /\ acc) True l.
+Lemma conj_all_Forall (A : Type) (Q : A -> Prop) l : conj_all Q l <-> Forall Q l.
+Proof.
+  induction l as [|x r IH]; simpl; split; intros H; auto.
+  - destruct H as [H1 H2]. constructor; tauto.
+  - inversion H; subst. split; tauto.
+Qed.
+
+(* the terms of a goal, of the goals of its branches too, are over cells that satisfy P *)
+Fixpoint goal_in (P : nat -> bool) (gl : goal) : Prop :=
   match gl with
   | GUnify a b => tin P a /\ tin P b
   | GCall _ args => lin P args
   | GAssert _ t | GRetract t | GRetractAll t => tin P t
+  | GOr a b => conj_all (goal_in P) a /\ conj_all (goal_in P) b
+  | GIf c t e => conj_all (goal_in P) c /\ conj_all (goal_in P) t /\ conj_all (goal_in P) e
+  | GFail | GCut | GPop | GCommit => True
   end.
+
+Lemma goal_in_or P a b : goal_in P (GOr a b) <-> Forall (goal_in P) a /\ Forall (goal_in P) b.
+Proof. cbn [goal_in]. rewrite !conj_all_Forall. tauto. Qed.
+Lemma goal_in_if P c t e : goal_in P (GIf c t e) <-> Forall (goal_in P) c /\ Forall (goal_in P) t /\ Forall (goal_in P) e.
+Proof. cbn [goal_in]. rewrite !conj_all_Forall. tauto. Qed.
 
 Record ginv (F : nat -> bool) (g : glob) : Prop := mkginv {
   gi_facts : facts_in F (gdb g);
@@ -59,14 +76,19 @@ Proof.
   apply negb_true_iff. destruct (F' v) eqn:E; auto. destruct (C v E) as [Z|Z]; [congruence|lia].
 Qed.
 
+Lemma Forall_impl_in (A : Type) (Q R : A -> Prop) l : Forall (fun x => Q x -> R x) l -> Forall Q l -> Forall R l.
+Proof. induction 1 as [|x r H _ IH]; intros X; inversion X; subst; constructor; auto. Qed.
+
 Lemma goal_in_mono (P Q : nat -> bool) gl : (forall v, P v = true -> Q v = true) -> goal_in P gl -> goal_in Q gl.
 Proof.
-  intros H. destruct gl as [a b|nm args|fr t|t|t]; simpl.
-  - intros [A B]. split; eapply tin_mono; eauto.
-  - apply lin_mono. exact H.
-  - apply tin_mono. exact H.
-  - apply tin_mono. exact H.
-  - apply tin_mono. exact H.
+  intros H. induction gl as [a b|nm args|fr t|t|t| | |a b IHa IHb|c t e IHc IHt IHe| | ] using goal_ind'; try (simpl; tauto).
+  - simpl. intros [A B]. split; eapply tin_mono; eauto.
+  - simpl. apply lin_mono. exact H.
+  - simpl. apply tin_mono. exact H.
+  - simpl. apply tin_mono. exact H.
+  - simpl. apply tin_mono. exact H.
+  - rewrite !goal_in_or. intros [A B]. split; eapply Forall_impl_in; eauto.
+  - rewrite !goal_in_if. intros [A [B C]]. repeat split; eapply Forall_impl_in; eauto.
 Qed.
 
 Lemma fact_cells_mono (F F' : nat -> bool) f : (forall w, F w = true -> F' w = true) -> fact_cells F f -> fact_cells F' f.
@@ -136,12 +158,14 @@ Qed.
 
 Lemma goal_in_shift (P : nat -> bool) m k gl : (forall v, v < m -> P (k + v) = true) -> goal_in (below m) gl -> goal_in P (shift_goal k gl).
 Proof.
-  intros H. destruct gl as [a b|nm args|fr t|t|t]; simpl.
-  - intros [A B]. split; eapply tin_shift; eauto.
-  - apply lin_shift. exact H.
-  - apply tin_shift. exact H.
-  - apply tin_shift. exact H.
-  - apply tin_shift. exact H.
+  intros H. induction gl as [a b|nm args|fr t|t|t| | |a b IHa IHb|c t e IHc IHt IHe| | ] using goal_ind'; try (simpl; tauto).
+  - simpl. intros [A B]. split; eapply tin_shift; eauto.
+  - simpl. apply lin_shift. exact H.
+  - simpl. apply tin_shift. exact H.
+  - simpl. apply tin_shift. exact H.
+  - simpl. apply tin_shift. exact H.
+  - cbn [shift_goal]. rewrite !goal_in_or. intros [A B]. split; apply Forall_map; eapply Forall_impl_in; eauto.
+  - cbn [shift_goal]. rewrite !goal_in_if. intros [A [B C]]. repeat split; apply Forall_map; eapply Forall_impl_in; eauto.
 Qed.
 
 Lemma new_cells_Pc F n m : (forall w, F w = true -> w < n) -> forall v, v < m -> Pc (n + m) F (n + v) = true.
@@ -190,7 +214,25 @@ Lemma bpost_step F g F1 g1 g' : grow F (gn g) F1 (gn g1) -> bpost F1 g1 g' -> bp
 Proof. intros G [F2 [G2 I2]]. exists F2. split; auto. eapply grow_trans; eauto. Qed.
 
 Definition inv_rec (rec : list goal -> store -> glob -> res) : Prop :=
-  forall gs s g g' a tr F, cinv F gs s g -> rec gs s g = Some (g', a, tr) -> bpost F g g'.
+  forall gs s g g' a tr c F, cinv F gs s g -> rec gs s g = Some (g', a, tr, c) -> bpost F g g'.
+
+Lemma mapflag_some fl x g' a tr c : mapflag fl x = Some (g', a, tr, c) -> exists c0, x = Some (g', a, tr, c0).
+Proof. destruct x as [[[[g1 a1] t1] c1]|]; simpl; intros H; inversion H; subst. eauto. Qed.
+Lemma tag_some o x g' a tr c : tag o x = Some (g', a, tr, c) -> exists t0, tr = o :: t0 /\ x = Some (g', a, t0, c).
+Proof. destruct x as [[[[g1 a1] t1] c1]|]; simpl; intros H; inversion H; subst. eauto. Qed.
+
+(* x, then possibly f from the state x left: the second part starts from an invariant for a larger F *)
+Lemma alt_inv lv (x : res) (f : glob -> res) F g g' a tr c :
+  (forall g1 a1 t1 c1, x = Some (g1, a1, t1, c1) -> bpost F g g1) ->
+  (forall F1 g1 g2 a2 t2 c2, grow F (gn g) F1 (gn g1) -> ginv F1 g1 -> f g1 = Some (g2, a2, t2, c2) -> bpost F1 g1 g2) ->
+  alt lv x f = Some (g', a, tr, c) -> bpost F g g'.
+Proof.
+  intros Hx Hf H. unfold alt in H. destruct x as [[[[g1 a1] t1] c1]|]; [|discriminate].
+  pose proof (Hx _ _ _ _ eq_refl) as P1.
+  destruct (lv c1) as [c'|]; [inversion H; subst; exact P1|].
+  destruct (f g1) as [[[[g2 a2] t2] c2]|] eqn:E; [|discriminate]. inversion H; subst; clear H.
+  destruct P1 as [F1 [G1 I1]]. eapply bpost_step; [exact G1|]. eapply Hf; eauto.
+Qed.
 
 Lemma rallh_inv uf F s args : forall l n keep gone n',
   (forall w, F w = true -> w < n) -> wf s -> good (Pc n F) s -> lin (Pc n F) args -> Forall (fact_cells F) l ->
@@ -216,10 +258,10 @@ Section Loops.
   Variable rec : list goal -> store -> glob -> res.
   Hypothesis Hrec : inv_rec rec.
 
-  Lemma scanq_inv args r s : forall l g g' a tr F, ginv F g -> ctx F (gn g) s args r l ->
-    scanq uf rec args r s l g = Some (g', a, tr) -> bpost F g g'.
+  Lemma scanq_inv args r s : forall l g g' a tr c F, ginv F g -> ctx F (gn g) s args r l ->
+    scanq uf rec args r s l g = Some (g', a, tr, c) -> bpost F g g'.
   Proof.
-    induction l as [|f l IH]; intros g g' a tr F I C H; cbn [scanq] in H.
+    induction l as [|f l IH]; intros g g' a tr c F I C H; cbn [scanq] in H.
     - inversion H; subst. apply bpost_refl; auto.
     - pose proof C as [W G La Lr Fl]. inversion Fl as [|? ? Ff Fl']; subst.
       destruct (answer_match_fast uf s (gn g) args (fargs f)) as [u n1] eqn:M.
@@ -228,12 +270,12 @@ Section Loops.
       assert (C1: ctx F n1 s args r l) by (eapply ctx_mono; [apply grow_n; exact L|eapply ctx_tail; exact C]).
       destruct u as [s'| | |]; try discriminate.
       + destruct Po as [W' G'].
-        destruct (rec r s' (set_n g n1)) as [[[g1 a1] t1]|] eqn:ER; [|discriminate]. cbn [bindr] in H.
-        destruct (scanq uf rec args r s l g1) as [[[g2 a2] t2]|] eqn:ES; [|discriminate]. inversion H; subst; clear H.
         assert (CI: cinv F r s' (set_n g n1)) by (constructor; simpl; auto; apply C1).
-        destruct (Hrec CI ER) as [F1 [G1 I1']]. simpl in G1.
-        apply (@bpost_step F g F1 g1 g'); [eapply grow_trans; [apply grow_n; exact L|exact G1]|].
-        eapply IH; [exact I1'| |exact ES]. eapply ctx_mono; [exact G1|exact C1].
+        apply (@bpost_step F g F (set_n g n1) g'); [apply grow_n; exact L|].
+        eapply alt_inv; [| |exact H].
+        * intros g1 a1 t1 c1 E. apply tag_some in E as [t0 [_ ER]]. exact (Hrec CI ER).
+        * intros F1 g1 g2 a2 t2 c2 G1 I1' ES. simpl in G1.
+          eapply IH; [exact I1'| |exact ES]. eapply ctx_mono; [exact G1|exact C1].
       + apply (@bpost_step F g F (set_n g n1) g'); [apply grow_n; exact L|].
         eapply IH; [exact I1|exact C1|exact H].
   Qed.
@@ -247,30 +289,30 @@ Section Loops.
     - intros w Hw. apply B in Hw. lia.
   Qed.
 
-  Lemma scanr_inv k args r s : forall l g g' a tr F, ginv F g -> ctx F (gn g) s args r l ->
-    scanr uf rec k args r s l g = Some (g', a, tr) -> bpost F g g'.
+  Lemma scanr_inv k args r s : forall l g g' a tr c F, ginv F g -> ctx F (gn g) s args r l ->
+    scanr uf rec k args r s l g = Some (g', a, tr, c) -> bpost F g g'.
   Proof.
-    induction l as [|f l IH]; intros g g' a tr F I C H; cbn [scanr] in H.
+    induction l as [|f l IH]; intros g g' a tr c F I C H; cbn [scanr] in H.
     - inversion H; subst. apply bpost_refl; auto.
     - pose proof C as [W G La Lr Fl]. inversion Fl as [|? ? Ff Fl']; subst.
       destruct (answer_match_fast uf s (gn g) args (fargs f)) as [u n1] eqn:M.
       destruct (@match_step uf F (gn g) s args f u n1 (gi_range I) W G La Ff M) as [L Po].
       pose proof (ginv_set_n I L) as I1.
       assert (C1: ctx F n1 s args r l) by (eapply ctx_mono; [apply grow_n; exact L|eapply ctx_tail; exact C]).
-      assert (Skip: scanr uf rec k args r s l (set_n g n1) = Some (g', a, tr) -> bpost F g g').
+      assert (Skip: scanr uf rec k args r s l (set_n g n1) = Some (g', a, tr, c) -> bpost F g g').
       { intros E. apply (@bpost_step F g F (set_n g n1) g'); [apply grow_n; exact L|].
         eapply IH; [exact I1|exact C1|exact E]. }
       destruct u as [s'| | |]; try discriminate; auto.
       destruct (has_id (fid f) (gdb g k)); auto.
       destruct Po as [W' G'].
       set (g0 := mkg (upd k (del_id (fid f) (gdb g k)) (gdb g)) (gid g) n1 (gw g)) in *.
-      destruct (rec r s' g0) as [[[g1 a1] t1]|] eqn:ER; [|discriminate]. cbn [bindr] in H.
-      destruct (scanr uf rec k args r s l g1) as [[[g2 a2] t2]|] eqn:ES; [|discriminate]. inversion H; subst; clear H.
       assert (I0: ginv F g0) by (apply ginv_del; auto).
       assert (CI: cinv F r s' g0) by (constructor; simpl; auto; apply C1).
-      destruct (Hrec CI ER) as [F1 [G1 I1']]. simpl in G1.
-      apply (@bpost_step F g F1 g1 g'); [eapply grow_trans; [apply grow_n; exact L|exact G1]|].
-      eapply IH; [exact I1'| |exact ES]. eapply ctx_mono; [exact G1|exact C1].
+      apply (@bpost_step F g F g0 g'); [apply grow_n; exact L|].
+      eapply alt_inv; [| |exact H].
+      * intros g1 a1 t1 c1 E. apply tag_some in E as [t0 [_ ER]]. exact (Hrec CI ER).
+      * intros F1 g1 g2 a2 t2 c2 G1 I1' ES. simpl in G1.
+        eapply IH; [exact I1'| |exact ES]. eapply ctx_mono; [exact G1|exact C1].
   Qed.
 
   (* head unification of a clause renamed to new cells *)
@@ -295,10 +337,10 @@ Section Loops.
       rewrite Forall_forall in Cb. eapply goal_in_shift; eauto.
   Qed.
 
-  Lemma tryclauses_inv args r s : forall cls g g' a tr F, Forall clause_ok cls -> ginv F g -> ctx F (gn g) s args r [] ->
-    tryclauses uf rec args r s cls g = Some (g', a, tr) -> bpost F g g'.
+  Lemma tryclauses_inv args r s : forall cls g g' a tr fl F, Forall clause_ok cls -> ginv F g -> ctx F (gn g) s args r [] ->
+    tryclauses uf rec args r s cls g = Some (g', a, tr, fl) -> bpost F g g'.
   Proof.
-    induction cls as [|c cs IH]; intros g g' a tr F OK I C H; cbn [tryclauses] in H.
+    induction cls as [|c cs IH]; intros g g' a tr fl F OK I C H; cbn [tryclauses] in H.
     - inversion H; subst. apply bpost_refl; auto.
     - inversion OK as [|? ? Oc Ocs]; subst. pose proof C as [W G La Lr _].
       assert (L: gn g <= gn g + cnv c) by lia.
@@ -307,14 +349,13 @@ Section Loops.
       destruct (@head_step F g s args c _ I W G La Oc eq_refl) as [Po Lb].
       destruct (unify_arrays_fast uf s args (map (shift (gn g)) (chead c))) as [s'| | |]; try discriminate.
       + destruct Po as [W' G'].
-        destruct (rec (map (shift_goal (gn g)) (cbody c) ++ r) s' (set_n g (gn g + cnv c))) as [[[g1 a1] t1]|] eqn:ER; [|discriminate].
-        cbn [bindr] in H.
-        destruct (tryclauses uf rec args r s cs g1) as [[[g2 a2] t2]|] eqn:ES; [|discriminate]. inversion H; subst; clear H.
-        assert (CI: cinv F (map (shift_goal (gn g)) (cbody c) ++ r) s' (set_n g (gn g + cnv c))).
-        { constructor; simpl; auto. apply Forall_app. split; [exact Lb|apply C1]. }
-        destruct (Hrec CI ER) as [F1 [G1 I1']]. simpl in G1.
-        apply (@bpost_step F g F1 g1 g'); [eapply grow_trans; [apply grow_n; exact L|exact G1]|].
-        eapply IH; [exact Ocs|exact I1'| |exact ES]. eapply ctx_mono; [exact G1|exact C1].
+        assert (CI: cinv F (map (shift_goal (gn g)) (cbody c) ++ GPop :: r) s' (set_n g (gn g + cnv c))).
+        { constructor; simpl; auto. apply Forall_app. split; [exact Lb|constructor; [exact Logic.I|apply C1]]. }
+        apply (@bpost_step F g F (set_n g (gn g + cnv c)) g'); [apply grow_n; exact L|].
+        eapply alt_inv; [| |exact H].
+        * intros g1 a1 t1 c1 ER. exact (Hrec CI ER).
+        * intros F1 g1 g2 a2 t2 c2 G1 I1' ES. simpl in G1.
+          eapply IH; [exact Ocs|exact I1'| |exact ES]. eapply ctx_mono; [exact G1|exact C1].
       + apply (@bpost_step F g F (set_n g (gn g + cnv c)) g'); [apply grow_n; exact L|].
         eapply IH; [exact Ocs|exact I1|exact C1|exact H].
   Qed.
@@ -368,13 +409,13 @@ Section Solve.
 
   Lemma solve_inv : forall n, inv_rec (solve uf prog n).
   Proof.
-    induction n as [|n IH]; intros gs s g g' a tr F CI H; [discriminate|].
+    induction n as [|n IH]; intros gs s g g' a tr fl F CI H; [discriminate|].
     cbn [solve] in H. destruct (gw g) as [|w]; [discriminate|].
     apply (@cinv_tick F gs s g w) in CI.
     set (gt := mkg (gdb g) (gid g) (gn g) w) in *.
     change (bpost F gt g'). clearbody gt. clear g. rename gt into g.
     pose proof CI as [I W G Lg].
-    destruct gs as [|[x y|name args|front t|t|t] r].
+    destruct gs as [|[x y|name args|front t|t|t| | |ga gb|gc gt ge| | ] r].
     - inversion H; subst. apply bpost_refl; auto.
     - inversion Lg as [|? ? Tg Lr]; subst. simpl in Tg. destruct Tg as [Tx Ty]. rewrite unify_fast_eq in H.
       destruct (@unify_frame (Pc (gn g) F) uf s x y (good_closed G) Tx Ty) as [_ Po].
@@ -383,23 +424,20 @@ Section Solve.
         eapply IH; [|exact H]. constructor; auto. apply good_app; auto.
       + inversion H; subst. apply bpost_refl; auto.
     - inversion Lg as [|? ? La Lr]; subst. simpl in La.
-      destruct (scanq uf (solve uf prog n) args r s (gdb g (name, length args)) g) as [[[g1 a1] t1]|] eqn:ES; [|discriminate].
-      cbn [bindr] in H.
-      destruct (tryclauses uf (solve uf prog n) args r s (clauses_of prog name (length args)) g1) as [[[g2 a2] t2]|] eqn:ET; [|discriminate].
-      inversion H; subst; clear H.
       assert (C: ctx F (gn g) s args r (gdb g (name, length args))).
       { constructor; auto. apply Forall_forall. intros f Hf. eapply (gi_facts I); eauto. }
-      destruct (@scanq_inv uf _ IH args r s _ _ _ _ _ F I C ES) as [F1 [G1 I1]].
-      apply (@bpost_step F g F1 g1 g' G1).
-      eapply tryclauses_inv; [exact IH|apply clauses_of_ok; exact Hprog|exact I1| |exact ET].
-      eapply ctx_mono; [exact G1|]. destruct C; constructor; auto.
+      eapply alt_inv; [| |exact H].
+      + intros g1 a1 t1 c1 ES. exact (@scanq_inv uf _ IH args r s _ _ _ _ _ _ F I C ES).
+      + intros F1 g1 g2 a2 t2 c2 G1 I1 ET.
+        eapply tryclauses_inv; [exact IH|apply clauses_of_ok; exact Hprog|exact I1| |exact ET].
+        eapply ctx_mono; [exact G1|]. destruct C; constructor; auto.
     - inversion Lg as [|? ? Tt Lr]; subst. simpl in Tt.
       destruct (callable (den_fast s t)) as [[name args]|] eqn:CA.
       + destruct (answer_init_fast s args (gn g)) as [stored n1] eqn:AI.
         set (k := (name, length args)) in *.
         destruct (@assert_inv F g s args stored n1 k front (gw g) I AI) as [G1 I1].
         set (g0 := mkg (upd k (ins front (mkfact (gid g) stored) (gdb g k)) (gdb g)) (S (gid g)) n1 (gw g)) in *.
-        destruct (solve uf prog n r s g0) as [[[g1 a1] t1]|] eqn:E; [|discriminate]. inversion H; subst; clear H.
+        apply tag_some in H as [t1 [_ E]].
         apply (@bpost_step F g _ g0 g' G1).
         eapply IH; [|exact E]. eapply (@cinv_mono F (gn g)); [exact G1|reflexivity|exact I1|].
         constructor; auto.
@@ -415,7 +453,7 @@ Section Solve.
       set (k := (name, length args)) in *.
       destruct (rallh uf s args (gdb g k) (gn g)) as [[[keep gone] n1]|] eqn:RA; [|discriminate].
       set (g0 := mkg (upd k keep (gdb g)) (gid g) n1 (gw g)) in *.
-      destruct (solve uf prog n r s g0) as [[[g1 a1] t1]|] eqn:E; [|discriminate]. inversion H; subst; clear H.
+      apply tag_some in H as [t1 [_ E]].
       assert (La: lin (Pc (gn g) F) args) by (eapply callable_lin; [apply good_closed; exact G|exact Tt|exact CA]).
       assert (Fl: Forall (fact_cells F) (gdb g k)) by (apply Forall_forall; intros f Hf; eapply (gi_facts I); eauto).
       destruct (@rallh_inv uf F s args _ _ _ _ _ (gi_range I) W G La Fl RA) as [L Sub].
@@ -427,5 +465,23 @@ Section Solve.
       apply (@bpost_step F g F g0 g'); [apply grow_n; exact L|].
       eapply IH; [|exact E]. eapply (@cinv_mono F (gn g)); [apply grow_n; exact L|reflexivity|exact I0|].
       constructor; auto.
+    - (* fail *) inversion H; subst. apply bpost_refl; auto.
+    - (* ! *) inversion Lg as [|? ? _ Lr]; subst. apply mapflag_some in H as [c0 E].
+      eapply IH; [|exact E]. constructor; auto.
+    - (* ; *) inversion Lg as [|? ? Tg Lr]; subst. apply goal_in_or in Tg as [Ta Tb].
+      eapply alt_inv; [| |exact H].
+      + intros g1 a1 t1 c1 E. eapply IH; [|exact E]. constructor; auto. apply Forall_app. split; auto.
+      + intros F1 g1 g2 a2 t2 c2 G1 I1 E. eapply IH; [|exact E].
+        eapply (@cinv_mono F (gn g)); [exact G1|reflexivity|exact I1|]. constructor; auto. apply Forall_app. split; auto.
+    - (* -> ; *) inversion Lg as [|? ? Tg Lr]; subst. apply goal_in_if in Tg as [Tc [Tt Te]].
+      eapply alt_inv; [| |exact H].
+      + intros g1 a1 t1 c1 E. eapply IH; [|exact E]. constructor; auto.
+        apply Forall_app. split; auto. constructor; [exact Logic.I|]. apply Forall_app. split; auto.
+      + intros F1 g1 g2 a2 t2 c2 G1 I1 E. eapply IH; [|exact E].
+        eapply (@cinv_mono F (gn g)); [exact G1|reflexivity|exact I1|]. constructor; auto. apply Forall_app. split; auto.
+    - (* end of a clause body *) inversion Lg as [|? ? _ Lr]; subst. apply mapflag_some in H as [c0 E].
+      eapply IH; [|exact E]. constructor; auto.
+    - (* end of a condition *) inversion Lg as [|? ? _ Lr]; subst. apply mapflag_some in H as [c0 E].
+      eapply IH; [|exact E]. constructor; auto.
   Qed.
 End Solve.
